@@ -209,13 +209,13 @@ def cases(tier, seed):
             for wrap in WRAPS_FOR[ptype]:
                 if tier == "quick" and wrap in ("all", "multi_link") and npix > 1:
                     continue
-                if npix == 3 and ptype in ("vcg", "creal"):
+                if npix == 3 and (ptype in ("vcg", "creal") or kind == "sgamma_cplx"):
                     continue
                 if n_outcomes(kind, wrap, npix, tier) > MAX_OUTCOMES:
                     continue            # joint data space too large to run the energy on every outcome
                 bl = blocks_for(kind, wrap, npix, tier)
                 D = len(grid_axes(bl))
-                for pt in grid_points(D, full_limit):
+                for pt in grid_points(D, full_limit if npix < 3 else 64):
                     out.append(dict(kind=kind, wrap=wrap, npix=npix, pt=pt, seed=seed, tier=tier))
     worder = list(WRAPS)
     korder = list(KINDS)
